@@ -32,6 +32,7 @@ BITLEN = z3.Function("bitlen", I, I)
 HEXLEN = z3.Function("hexlen", I, I)
 POW2 = z3.Function("pow2", I, I)
 REP = z3.Function("rep", I, I, Bytes)
+SHR = z3.Function("shr", I, I, I)
 
 # integer lists
 LLEN = z3.Function("llen", IntList, I)
@@ -476,6 +477,13 @@ def pow256(k):
     return pow2(8 * k)
 
 
+def shr(x, k):
+    """x >> k for k >= 0 (floor division by 2**k)"""
+    if not _anysym(x, k):
+        return x >> k if k >= 0 else x
+    return SInt(SHR(T(x), T(k)))
+
+
 def imin(a, b):
     if not _anysym(a, b):
         return min(a, b)
@@ -723,9 +731,36 @@ def _(b):
 @axiom("be_prefix", ["bytes", "int", "int"], lambda s, lo, hi: [be(slc(s, lo, hi))],
        domain=lambda s, lo, hi: lo == 0 and 0 <= hi <= len(s))
 def _(s, lo, hi):
-    # value of a prefix: be(s[:k]) = be(s) div 256^(len-k)
+    # value of a prefix: be(s[:k]) = be(s) >> 8*(len-k)
     return Implies_(And_(eq(lo, 0), 0 <= hi, hi <= blen(s)),
-                    eq(be(slc(s, lo, hi)), be(s) // pow256(blen(s) - hi)))
+                    eq(be(slc(s, lo, hi)), shr(be(s), 8 * (blen(s) - hi))))
+
+
+@axiom("shr_zero", ["int", "int"], lambda x, k: [shr(x, k)], domain=lambda x, k: k == 0)
+def _(x, k):
+    return Implies_(eq(k, 0), eq(shr(x, k), x))
+
+
+@axiom("shr_shr", ["int", "int", "int"], lambda x, a, b: [shr(shr(x, a), b)], domain=lambda x, a, b: 0 <= a <= 300 and 0 <= b <= 300)
+def _(x, a, b):
+    return Implies_(And_(a >= 0, b >= 0), eq(shr(shr(x, a), b), shr(x, a + b)))
+
+
+@axiom("shr_cong", ["int", "int", "int"], lambda x, a, b: [[shr(x, a), shr(x, b)]], domain=lambda x, a, b: 0 <= a <= 300 and 0 <= b <= 300)
+def _(x, a, b):
+    # explicit congruence: makes the solver split on a == b (arithmetic) instead of waiting for equality propagation
+    return Implies_(eq(a, b), eq(shr(x, a), shr(x, b)))
+
+
+@axiom("shr_def", ["int", "int"], lambda x, k: [shr(x, k)], domain=lambda x, k: 0 <= k <= 600)
+def _(x, k):
+    return Implies_(k >= 0, And_(eq(shr(x, k), x // pow2(k)), Implies_(x >= 0, And_(shr(x, k) >= 0, shr(x, k) <= x))))
+
+
+@axiom("shr_small", ["int", "int"], lambda x, k: [shr(x, k)], domain=lambda x, k: 0 <= k <= 600 and 0 <= x)
+def _(x, k):
+    # x < 2^b  ->  (x >> k) < 2^(b-k) is used through bitlen: what is left after dropping k bits fits in bitlen(x) - k bits
+    return Implies_(And_(k >= 0, x >= 0, k <= bitlen(x)), bitlen(shr(x, k)) == bitlen(x) - k)
 
 
 @axiom("bitlen_def", ["int"], lambda v: [bitlen(v)], domain=lambda v: v >= 0)
@@ -752,7 +787,7 @@ def pow2_facts(t):
     return z3.And(*[z3.Implies(t == c, POW2(t) == 2 ** c) for c in list(range(0, 17)) + [24, 32, 40, 48, 56, 64]])
 
 
-HEAVY = {"pow2_mono", "be_msb", "bytelen_mono"}     # quadratic multi-patterns / nonlinear bodies
+HEAVY = {"pow2_mono", "be_msb", "bytelen_mono", "shr_def"}     # quadratic multi-patterns / nonlinear bodies
 
 
 def base_axioms(heavy=True):
